@@ -62,7 +62,9 @@ def case_strategy(draw):
                 aesthetics=draw(st.sampled_from(['traditional', 'noconst', 'mean', 'nothing', 'damp'])),
                 with_ivar=draw(st.sampled_from([True, True, True, False])) if nexp == 1 else True,
                 ivar_kind=draw(st.sampled_from(['smooth', 'const'])), scale=draw(st.sampled_from([2.0, 1e-17, 0.5, 1000.0, 1e-3, 1e-9])),
-                seed=draw(st.integers(0, 10 ** 6)))
+                seed=draw(st.integers(0, 10 ** 6)),
+                # stacked exposures on one grid sharing a mask that leaves one (or two) good wavelengths between two runs of two bad pixels
+                iso=(draw(st.sampled_from([None, None, [draw(st.integers(20, n - 20)), draw(st.sampled_from([1, 2]))]])) if nexp >= 2 else None))
 
 
 def build(case):
@@ -73,7 +75,7 @@ def build(case):
     fp = case['fp']
     rng = np.random.RandomState(case['seed'])          # only shapes noise; part of the case
     for e in range(nexp):
-        ll = c0 + c1 * (k + case['offsets'][e])
+        ll = c0 + c1 * (k + (case['offsets'][e] if not case.get('iso') else 0.0))
         s = (ll - c0) / (c1 * n)
         if case['fam'] == 'const':
             fl = np.full(n, 5.0 + 3 * fp[0])
@@ -92,6 +94,10 @@ def build(case):
         for a, m in case['zeros']:
             a2 = (a + 7 * e) % n if case['zpattern'] != 'all' and case['zpattern'] != 'ends' else a
             iv[a2:a2 + m] = 0.0
+        if case.get('iso'):
+            p_, w_ = case['iso']
+            iv[p_ - 2:p_] = 0.0
+            iv[p_ + w_:p_ + w_ + 2] = 0.0
         lls.append(ll)
         fls.append(fl)
         ivs.append(iv)
@@ -216,8 +222,16 @@ def body(case):
                 tolv = np.where(d2 > 25 * abs(l2[0, 1] - l2[0, 0]), tolv, 2e-3)
             dev = np.abs(nf - ref)
             kind = 'constant-spectrum-not-constant' if case['fam'] == 'const' else ('same-grid-not-identity' if case['og'] == 'same' else 'flux-not-reproduced')
-            worst = int(np.nonzero(nz)[0][(dev[nz] / tolv[nz]).argmax()])
-            check(bool(np.all(dev[nz] <= tolv[nz] * amp)), kind, lambda: dict(maxdev=float(dev[worst]), tol=float(tolv[worst]), og=case['og'], pixel=worst))
+            nzf = nz.copy()
+            if case.get('iso'):
+                # an island of one or two good wavelengths between two gaps is not "good and smooth" input: the spline through it is
+                # barely constrained (observed 15 % off with a non-zero inverse variance); only the inverse-variance rules apply there
+                l0_ = np.atleast_2d(ll)[0]
+                p_, w_ = case['iso']
+                nzf &= ~((nl >= l0_[p_ - 3]) & (nl <= l0_[min(p_ + w_ + 2, len(l0_) - 1)]))
+            if nzf.any():
+                worst = int(np.nonzero(nzf)[0][(dev[nzf] / tolv[nzf]).argmax()])
+                check(bool(np.all(dev[nzf] <= tolv[nzf] * amp)), kind, lambda: dict(maxdev=float(dev[worst]), tol=float(tolv[worst]), og=case['og'], pixel=worst))
             if case['nexp'] == 1 and case['fam'] != 'const':
                 # "where the input is good and smooth the output reproduces it": far (> 12 input pixels) from every zero-weight pixel and
                 # from both ends of the data the flux is the input's, whatever inverse variance the pixel was given
@@ -257,6 +271,10 @@ def body(case):
         smooth_input = case['fam'] in ('const', 'poly', 'sinus')
         if both.any() and not damp and not smooth_input:
             note_label('flux-scaling-skipped-noisy-input')
+        if case.get('iso'):
+            l0_ = np.atleast_2d(ll)[0]
+            p_, w_ = case['iso']
+            both = both & ~((nl >= l0_[p_ - 3]) & (nl <= l0_[min(p_ + w_ + 2, len(l0_) - 1)]))       # the island is not "good and smooth" input (see above)
         if both.any() and not damp and smooth_input:
             # the statement promises flux relations "where the input is good and smooth"; with noise, a gap next to the data end makes the
             # spline system nearly singular and the noise is amplified (observed: flux 535 instead of 5 at pixels with ivar > 0, and a
